@@ -361,7 +361,34 @@ def check_C20(tier, seed):
     return res.finish()
 
 
-CHECKS = {"C20": check_C20, "C08": check_C08, "C09": check_C09, "C18": check_C18, "C04": check_C04, "C11": check_C11, "C01": check_C01, "C02": check_C02, "C16": check_C16, "C03": check_C03, "C12": check_C12, "C13": check_C13,
+def check_C10(tier, seed):
+    import refs
+    res = Result("C10", tier, seed, "other")
+    binary = need_binary(res)
+    rng = random.Random(seed * 7919 + 10)
+    q = tier == "quick"
+    files = gens.select_files(rng, 48) if q else gens.corpus_files()
+    res.notes["corpus_files"] = len(files)
+    def events():
+        for rel in files:
+            yield from refs.gen_file_session(rng, rel, max_tr=30 if q else 400, nrandom=10 if q else 40)
+    run_pipeline(res, binary, "files", gen_lines=events(), nshards=16, min_events=300)
+    def sevents():
+        for s in refs.POSIX_STRINGS:
+            yield from refs.gen_string_session(rng, s)
+        for _ in range(20 if q else 400):
+            yield from refs.gen_string_session(rng, refs.rand_posix_string(rng))
+    run_pipeline(res, binary, "strings", gen_lines=sevents(), nshards=8, min_events=300)
+    res.notes["explanation"] = ("Differential conformance of three implementations to one specification: for each tzdata 2025b file the trace holds the crate's lookups "
+                                "and searches and the observations of glibc (time.tzset/localtime with TZ=:/path; right/ files at the leap count) and CPython zoneinfo "
+                                "(ZoneInfo.from_file) at every selected transition -1/0/+1, seeded instants 1900-2500 and footer-governed years; TLC validates every "
+                                "observation of every implementation against TypeAt / ValidInstants of the zone decoded from the file. mktime: the instants each "
+                                "reference implies (preimage of its own forward function) must equal the spec's set, which the crate's search is validated against.")
+    res.notes["rule"] = "quick: 48 files (24 fixed interesting + seeded), <= 30 transitions each; thorough: all 894 files, <= 400 transitions each; 13 fixed + seeded POSIX TZ strings vs glibc's TZ parser"
+    return res.finish()
+
+
+CHECKS = {"C10": check_C10, "C20": check_C20, "C08": check_C08, "C09": check_C09, "C18": check_C18, "C04": check_C04, "C11": check_C11, "C01": check_C01, "C02": check_C02, "C16": check_C16, "C03": check_C03, "C12": check_C12, "C13": check_C13,
           "C05": lambda t, s: check_find("C05", t, s), "C06": lambda t, s: check_find("C06", t, s), "C17": lambda t, s: check_find("C17", t, s),
           "C14": check_C14}
 
